@@ -16,13 +16,13 @@ CHECKS = {
     "C02": (MC, "z3 on the captured LP: sum_i ite-decoded x*w == flow for every optimal answer (EXACT for ints, TOL(1e-9) for floats), connectivity cut for walk layers, decode of solver-chosen answers through real getters",
             "Bounded as C01; greedy route evaluated concretely per enumerated flow.", "z3; HiGHS answers feasible within tolerance; C14 for walk reconstruction", "5/C02"),
     "C03": (TV, "LP_k of the real kFlowDecomp vs route-enumeration spec: equi-feasibility for every k, reference minimum certified by unsat for all smaller k; wrapper result and lower bounds compared with it",
-            "Bounded: DAGs <= 4 (5) nodes, flows from <= 3 routes, k <= 6.", "z3; spec encodings (spec.py) validated by plain witness checker in replay", "5/C03"),
+            "Bounded: DAGs <= 4 (5) nodes (+ three hand-made 5-10-edge DAGs for the lower-bound options), flows from <= 3 routes, k <= 6.", "z3; spec encodings (spec.py) validated by plain witness checker in replay", "5/C03"),
     "C04": (TV, "LP_k of the real kFlowDecompCycles vs Euler-walk spec (equi-feasibility, certified minimum); scale invariance by LP(f) vs LP(c*f) feasibility",
             "Bounded: digraphs <= 3 inner nodes, flow <= 6, k <= 4.", "z3; Euler spec (rank connectivity); per-edge multiplicity <= flow value for integer weights", "5/C04"),
     "C09": (MC, "z3-certified minimum cover on an independent spec vs get_width, LP_k feasibility of k-cover models, 'every optimal LP answer covers', Min* wrappers",
-            "Bounded: DAGs <= 4 (5) nodes, digraphs <= 3 inner nodes, k <= 5; graph algorithms run concretely per enumerated graph.", "z3; spec encodings", "5/C09"),
-    "C12": (MC, "z3 on the LP rows produced by each helper on a raw SolverWrapper: soundness and completeness (canonical witness for auxiliaries) over all variable values; bound/objective op sequences vs snapshot",
-            "Bounds enumerated (they must be concrete to cross into HiGHS); values symbolic.", "z3; highspy getLp()", "5/C12"),
+            "Bounded: DAGs <= 4 (5) nodes, digraphs <= 3 inner nodes (+ curated shapes up to 26 edges for the repetition bound), k <= 5; graph algorithms run concretely per enumerated graph.", "z3; spec encodings", "5/C09"),
+    "C12": (MC, "z3 on the LP rows produced by each helper on a raw SolverWrapper: soundness and completeness (canonical witness for auxiliaries) over all variable values; CrossHair drives a real SolverWrapper through every sequence of 2 (thorough: 3) bound/objective operations and compares the LP snapshot with the requested state",
+            "Bounds enumerated (they must be concrete to cross into HiGHS); values symbolic; operation sequences: 6 kinds x 3 variables x 3 values per step, length 2 (3).", "z3; highspy getLp()", "5/C12"),
     "C05": (TV, "captured LP under each optimisation vector vs the all-off baseline LP of the same instance: z3 equi-feasibility and equality of certified optima; honest results compared for Min* wrappers and shortcut routes",
             "Bounded: curated + sampled small instances, vectors = baseline, single toggles, defaults, all-on, seeded random (full product in thorough).", "z3; HiGHS honest runs for the wrappers", "5/C05"),
     "C06": (MC, "z3 reachability on the product of the s-t graph with subsequence automata (rank-based well-founded witness; unsat = no walk of any length) for safety, slot incompatibility and pruning; QF_LRA for flow-safe paths",
@@ -39,18 +39,18 @@ CHECKS = {
             "Bounded as C07; coverage in {1, 0.5}, length coverage 0.6, constraint families contiguous / non-contiguous / duplicate / overlapping.", "z3; spec encodings", "5/C10"),
     "C11": (TV, "node-mode LP vs LP of the explicit expansion built by the harness: equal certified optimum / equi-feasibility (z3); CrossHair on NodeExpandedDiGraph kernels with symbolic node sequences",
             "Bounded: DAGs <= 4 (5) nodes, digraphs <= 3 inner nodes; kernel sequences <= 4 over 3 names.", "z3; CrossHair; reference expansion written in the harness", "5/C11"),
-    "C17": (MC, "CrossHair over symbolic histories of reachability queries on fresh graph objects (cold/warm caches) against a BFS oracle; z3 maximality query for the edge antichain; bottleneck peeling evaluated",
+    "C17": (MC, "CrossHair over symbolic histories of reachability queries on fresh graph objects and on the graph object held by a freshly built model (cold/warm caches) against a BFS oracle; z3 maximality query for the edge antichain; bottleneck peeling evaluated",
             "Bounded: DAGs <= 4 (5) nodes, digraphs <= 3 inner nodes, histories of 2 (3) queries over 5 addressed positions.", "CrossHair; z3; BFS oracle", "5/C17"),
     "C18": (EX, "CrossHair enumerates symbolic histories of model constructions/solves that share the caller's argument objects; models run concretely (NoTracing); after every step caller data is compared with its pre-image and the result with a fresh-copy baseline",
-            "Exploration: histories of length 2 (3) over 8 (6) class variants x 4 sharing patterns on one DAG and one cyclic instance; plus every mutable default argument.", "CrossHair path enumeration; repr-based deep equality", "5/C18"),
-    "C13": (MC, "CrossHair symbolic execution of the real search loops / abstract solve() over a symbolic outcome sequence (status per solver invocation, clock increments), plus status injection at the highspy boundary into the real classes",
+            "Exploration: histories of length 2 (3) over 11 (9) class variants x 3 sharing patterns on one DAG and one cyclic instance; plus every mutable default argument.", "CrossHair path enumeration; repr-based deep equality", "5/C18"),
+    "C13": (MC, "CrossHair symbolic execution of the real search loops / abstract solve() over a symbolic outcome sequence (status per solver invocation, clock increments), plus injection of inconclusive statuses and of the wrapper's own SIGALRM time-out at every solver invocation of the real classes (HX shim)",
             "Bounded: <= 5 solver invocations, 5-status alphabet; 'Confirmed over all paths' per harness with reachability twin.", "CrossHair/z3; k-model stubs validated by injected runs on the real classes", "5/C13"),
     "C14": (MC, "CrossHair symbolic execution of the real get_solution_walks/_reconstruct_eulerian_walk with a symbolic multiplicity per edge of enumerated universe graphs",
             "Bounded: universes <= 4 inner nodes, <= 10 edges, multiplicity <= 3; 'Confirmed over all paths' with reachability twin.", "CrossHair/z3", "5/C14"),
     "C19": (EX, "CrossHair on each constructor + solve with symbolic k, coverage, edge-weight codes, ignored-edge and corruption selectors; the documented-validity oracle is traced, the library call runs concretely per explored region",
-            "Exploration (symbolic-input bug finding): one fixed DAG / cyclic graph; 'Confirmed over all paths' means every region of the oracle over the stated small domains behaved.", "CrossHair; oracle transcribed from the property and docstrings", "5/C19"),
+            "Exploration (symbolic-input bug finding): one fixed DAG / cyclic graph (edge- and node-weighted), unit imbalance at magnitudes up to 2^45; 'Confirmed over all paths' means every region of the oracle over the stated small domains behaved.", "CrossHair; oracle transcribed from the property and docstrings", "5/C19"),
     "C20": (EX, "CrossHair on the real read_graph/read_graphs with a symbolic file structure (edge subset, weights, header/blank/#S counts, blocks, corruption kind and position) and one symbolic short edge line; stored width compared with a z3 cover spec",
-            "Exploration: graphs over 4 node names / 7 candidate edges; the symbolic-string harness is bug-finding only (reported inconclusive when not confirmed).", "CrossHair; z3 spec for the stored width", "5/C20"),
+            "Exploration: graphs over 4 node names / 8 candidate edges, count line = #nodes + d; the symbolic-string harness is bug-finding only (reported inconclusive when not confirmed).", "CrossHair; z3 spec for the stored width", "5/C20"),
 }
 
 NOT_YET = {}
